@@ -425,7 +425,7 @@ def _d(a, b):
 def gen_o_segment(rng, n):
     for i in range(n):
         dim = rng.choice([2, 2, 2, 3, 4])
-        kind = rng.choice(["segment", "segment", "geodesic", "near_origin", "scaled", "through_origin"])
+        kind = rng.choice(["segment", "segment", "geodesic", "near_origin", "scaled", "through_origin", "ideal_segment", "ideal_segment"])
         if kind == "near_origin":
             # a segment whose line passes at Klein distance eps from the origin
             eps = 10 ** rng.uniform(-2.0, -0.7)
@@ -438,6 +438,18 @@ def gen_o_segment(rng, n):
         elif kind == "through_origin":
             d = np.array(G.fsphere(rng, dim))
             k1, k2 = (rng.uniform(-0.8, -0.1) * d).tolist(), (rng.uniform(0.1, 0.8) * d).tolist()
+        elif kind == "ideal_segment":
+            # a Segment object one or both of whose endpoints are ideal (0, 1 and 2 ideal endpoints are all segments);
+            # mostly in the plane, where the arc itself is reported
+            if rng.random() < 0.7:
+                dim = 2
+            while True:
+                e1, e2 = np.array(G.fsphere(rng, dim)), np.array(G.fsphere(rng, dim))
+                if np.linalg.norm(e1 - e2) > 0.3 and np.linalg.norm(e1 + e2) > 0.3 and e1[0] < 0.8 and e2[0] < 0.8:
+                    break
+            t = rng.uniform(0.15, 0.85)
+            k1, k2 = rng.choice([(e1, e2), (e1, e2), (e1, t * e1 + (1 - t) * e2), (t * e1 + (1 - t) * e2, e2)])
+            k1, k2 = np.array(k1).tolist(), np.array(k2).tolist()
         elif kind == "geodesic":
             while True:
                 k1, k2 = G.fsphere(rng, dim), G.fsphere(rng, dim)
@@ -509,7 +521,16 @@ def run_o_segment(inp):
             out["inside"] = float(max(np.linalg.norm(p) for p in pts) - 1)
         else:
             out["inside"] = float(-min(p[1] for p in pts))
-        if inp["kind"] != "geodesic":
+        # the sampled arc on the Klein chord between the endpoints (for every kind; the only test of "the arc IS the segment"
+        # when an endpoint is ideal and distances are infinite)
+        worst = 0.0
+        dv = k2 - k1
+        for p in pts[1:-1]:
+            kp = np.array(H.Point(p, model=model).coords("klein"), dtype=float)
+            tpar = float(np.dot(kp - k1, dv) / np.dot(dv, dv))
+            worst = max(worst, float(np.linalg.norm(kp - k1 - tpar * dv)), -tpar, tpar - 1)
+        out["on_chord"] = worst
+        if inp["kind"] not in ("geodesic", "ideal_segment"):
             tot = _d(P1, P2)
             worst = 0.0
             for p in pts[1:-1]:
@@ -550,6 +571,9 @@ def judge_o_segment(inp, obs, lr):
         if not (obs["inside"] <= 10 * tol and obs["extent"] <= math.pi + 1e-6):
             return {"expected": "counter-clockwise arc between the angles lies inside the model", "observed": obs,
                     "tags": dict(tags, what="inside")}
+        if inp["kind"] != "geodesic" and "on_chord" in obs and not obs["on_chord"] <= 1e-5 * (1 + r):
+            return {"expected": "arc points on the Klein chord between the two endpoints", "observed": obs["on_chord"],
+                    "tags": dict(tags, what="on_chord")}
         if "on_segment" in obs and not obs["on_segment"] <= 1e-5 * (1 + obs["tot"]) * (1 + r):
             return {"expected": "arc points on the hyperbolic segment (d(p,x)+d(x,q)=d(p,q))", "observed": obs["on_segment"],
                     "tags": dict(tags, what="on_segment")}
